@@ -78,6 +78,35 @@ fn main() {
         let with_sig: Vec<W> = rel.iter().map(|c| concat(c, sig)).collect();
         sink.merge(struct_sweep(&run, &[&P_DH_NEW], &with_sig, 0, &sfx, 16, &no_extra));
     }
+    // named group x point size under several content patterns (all ff = not a reduced field element, all zero, high bit ...),
+    // alone and followed by a signature
+    for style in [0u8, 1, 4, 5, 3] {
+        let grid = vcommon::en::with_fill_style(style, cat::ecdh_grid);
+        sink.merge(struct_sweep(&run, &[&ECDH_PARAMS, &EC_PARAMETERS], &grid, 0, &sfx, 16, &no_extra));
+        if style == 0 || style == 4 {
+            let sig = &sig_new[sig_new.len() / 2];
+            sink.merge(struct_sweep(&run, &[&P_ECDH_NEW], &grid.iter().map(|c| concat(c, sig)).collect::<Vec<_>>(), 0, &sfx, 16, &no_extra));
+        }
+    }
+    // coincidences between the algorithm pair read as a 16-bit number and the length of what follows (a decoder that tries
+    // the other DigitallySigned form "when it fits"): signature sizes a-4, a-2, a for algorithm pairs a
+    {
+        let mut co: Vec<W> = Vec::new();
+        for a in (0..=0x0900u32).step_by(if thorough { 1 } else { 0x100 }).chain((0..=0x0909u32).filter(|a| a & 0xff <= 9)) {
+            for d in [4i64, 2, 0] {
+                let n = a as i64 - d;
+                if (0..=20000).contains(&n) {
+                    let mut w = W::new();
+                    w.u16(a as u16);
+                    w.block(2, "sig_len", |w| {
+                        w.fill(n as usize, 0x30);
+                    });
+                    co.push(w);
+                }
+            }
+        }
+        sink.merge(struct_sweep(&run, &[&SIGNED, &SIGNED_OLD], &co, 0, &sfx, 16, &no_extra));
+    }
     // explicit-prime curves and DH groups on the primes everybody knows (P-256, P-384, P-521, secp256k1, brainpool, 25519, ffdhe2048)
     {
         let real = cat::ec_explicit_real();
